@@ -1249,6 +1249,10 @@ func (st *e2State) judgeStability(fn *Func, src taintSrc) {
 		case "sort.Strings", "sort.Ints", "sort.Float64s", "slices.Sort":
 			st.r.Add("E2.stable-sort", fn.Name, key, p.Pos(call), OK, "elements that compare equal are identical", true)
 		case "sort.Sort", "sort.Slice", "slices.SortFunc":
+			if full == "sort.Slice" && len(call.Args) == 2 && sliceOfMapKeysOrderedByElement(fn, call, src.path) {
+				st.r.Add("E2.stable-sort", fn.Name, key, p.Pos(call), OK, "the elements are the keys of one Go map (pairwise distinct) and the comparator orders the elements themselves: no two compare equal", true)
+				return true
+			}
 			if ex := stableSortExceptions[fn.Name+"|"+pathName(src.path)]; ex != "" {
 				st.r.Add("E2.stable-sort", fn.Name, key, p.Pos(call), Excepted, ex, true)
 			} else {
@@ -1319,4 +1323,101 @@ func (st *e2State) summariseParamSorts(fn *Func) {
 		}
 		return true
 	})
+}
+
+// sliceOfMapKeysOrderedByElement: every append to the slice `path` in fn adds the key
+// variable of a range over a Go map (one map: the keys are pairwise distinct), and the
+// comparator of the sort call compares xs[i] with xs[j] themselves (possibly converted).
+func sliceOfMapKeysOrderedByElement(fn *Func, call *ast.CallExpr, path string) bool {
+	info := fn.Info()
+	lit, ok := comparatorLit(fn, call.Args[1])
+	if !ok || lit.Type.Params == nil {
+		return false
+	}
+	params := map[types.Object]bool{}
+	for _, f := range lit.Type.Params.List {
+		for _, nm := range f.Names {
+			params[info.ObjectOf(nm)] = true
+		}
+	}
+	elemOrdered := false
+	ast.Inspect(lit.Body, func(k ast.Node) bool {
+		be, ok := k.(*ast.BinaryExpr)
+		if !ok || (be.Op != token.LSS && be.Op != token.GTR) {
+			return true
+		}
+		isElem := func(e ast.Expr) bool {
+			e = ast.Unparen(e)
+			if c, ok := e.(*ast.CallExpr); ok && len(c.Args) == 1 {
+				if tv, ok := info.Types[c.Fun]; ok && tv.IsType() {
+					e = ast.Unparen(c.Args[0])
+				}
+			}
+			ix, ok := e.(*ast.IndexExpr)
+			if !ok || pathOf(info, ix.X) != path {
+				return false
+			}
+			id, ok := ast.Unparen(ix.Index).(*ast.Ident)
+			return ok && params[info.ObjectOf(id)]
+		}
+		if isElem(be.X) && isElem(be.Y) {
+			elemOrdered = true
+		}
+		return true
+	})
+	if !elemOrdered {
+		return false
+	}
+	// a comparator with a single comparison only (no secondary key that could be read as a tie-break of a non-total primary)
+	nAppends, good := 0, true
+	var theMap string
+	ast.Inspect(fn.Body, func(k ast.Node) bool {
+		as, ok := k.(*ast.AssignStmt)
+		if !ok || len(as.Lhs) != 1 || len(as.Rhs) != 1 || pathOf(info, as.Lhs[0]) != path {
+			return true
+		}
+		c, ok := ast.Unparen(as.Rhs[0]).(*ast.CallExpr)
+		if !ok {
+			return true
+		}
+		if isBuiltinCall(info, c, "make") {
+			return true
+		}
+		if !isBuiltinCall(info, c, "append") || len(c.Args) != 2 || c.Ellipsis.IsValid() || pathOf(info, c.Args[0]) != path {
+			good = false
+			return true
+		}
+		nAppends++
+		kid, ok := ast.Unparen(c.Args[1]).(*ast.Ident)
+		if !ok {
+			good = false
+			return true
+		}
+		ko := info.ObjectOf(kid)
+		as2 := fn.Assignments(ko)
+		if len(as2) != 1 {
+			good = false
+			return true
+		}
+		rs, ok := as2[0].(*ast.RangeStmt)
+		if !ok {
+			good = false
+			return true
+		}
+		if id, ok := rs.Key.(*ast.Ident); !ok || info.ObjectOf(id) != ko {
+			good = false
+			return true
+		}
+		if _, isMap := info.TypeOf(rs.X).Underlying().(*types.Map); !isMap {
+			good = false
+			return true
+		}
+		m := pathOf(info, rs.X)
+		if m == "" || (theMap != "" && theMap != m) {
+			good = false
+		}
+		theMap = m
+		return true
+	})
+	return good && nAppends == 1
 }
